@@ -8,7 +8,7 @@
     children (`GapPath`, i.e. the guard `gapClean` of `replaceAround_undo_structural`);
   * range mark steps: the inverse is built without looking at the document;
   * node-mark steps: `node_at(pos)` is the node the step replaced.
-  (Attribute steps: `invert` reads `node.attrs[name]`; see `attr_invert_ok`.)
+  * attribute steps: `invert` reads `node.attrs.get(name)` and never fails.
 -/
 import PM.Step
 import Proofs.Undo
@@ -129,17 +129,22 @@ theorem invert_ok_removeNodeMark (S : Schema) (doc doc' : Node) (pos : Nat) (m :
   simp only [Schema.invert, hna]
   split <;> exact ⟨_, rfl⟩
 
-/-- an attribute step's inverse is built when the node carries the attribute (in a document whose nodes
-    carry their attributes as `compute_attrs` builds them: when the node's type declares it) -/
+/-- an attribute step's inverse is always built (`node.attrs.get(name)`: `None` for an attribute the node
+    does not carry) -/
 theorem attr_invert_ok (S : Schema) (doc doc' : Node) (pos : Nat) (name value : String)
-    (h : S.apply (.attr pos name value) doc = .ok doc')
-    (hc : ∀ n, doc.nodeAt pos = .ok (some n) → (n.attrs.find? (·.1 == name)).isSome = true) :
+    (h : S.apply (.attr pos name value) doc = .ok doc') :
     ∃ inv, S.invert (.attr pos name value) doc = .ok inv := by
   obtain ⟨n, u, hna, _, _⟩ := apply_attr_parts S doc doc' pos name value h
-  have := hc n hna
   simp only [Schema.invert, hna]
   cases hf : n.attrs.find? (·.1 == name) with
-  | none => simp [hf] at this
+  | none => exact ⟨_, rfl⟩
+  | some q => exact ⟨_, rfl⟩
+
+theorem docAttr_invert_ok (S : Schema) (doc : Node) (name value : String) :
+    ∃ inv, S.invert (.docAttr name value) doc = .ok inv := by
+  simp only [Schema.invert]
+  cases hf : doc.attrs.find? (·.1 == name) with
+  | none => exact ⟨_, rfl⟩
   | some q => exact ⟨_, rfl⟩
 
 end PM
